@@ -36,8 +36,9 @@ SCRIPTS = [
     ("expect-cl0", "PUT /u HTTP/1.1\r\nExpect: 100-continue\r\nContent-Length: 0\r\n\r\nGET /x HTTP/1.1\r\n\r\n"),
 ]
 OPS = ["RR", "BV", "BF 1 0", "BF 1 4", "BF 1 5", "BF 1 1000000", "BF 0 100", "CO",
-       "WR 100 n", "WR 200 n", "WR 200 t", "WR 404 t", "WR 500 n", "WR 200 d", "WR 200 cl", "WR 200 ct", "WR 200 te", "SH"]
-OPS_CORE = ["RR", "BV", "BF 1 4", "BF 1 5", "BF 0 100", "CO", "WR 100 n", "WR 200 t", "WR 500 n", "WR 200 d", "WR 200 cl", "SH"]
+       "WR 100 n", "WR 200 n", "WR 200 t", "WR 404 t", "WR 500 n", "WR 200 d", "WR 200 cl", "WR 200 ct", "WR 200 te",
+       "WR 200 fm", "WR 200 fs", "SH"]
+OPS_CORE = ["RR", "BV", "BF 1 4", "BF 1 5", "BF 0 100", "CO", "WR 100 n", "WR 200 t", "WR 500 n", "WR 200 d", "WR 200 cl", "WR 200 fm", "SH"]
 
 def gen(rng, tier):
     cases = ["tables"]
